@@ -463,8 +463,11 @@ def build_multiband_inputs(rng, crossed=False):
         for i, b, nf in ((0, 'C', 5.0), (0, 'L', 7.0), (1, 'C', 7.0), (1, 'L', 5.0)):
             m = lib[f'syn_mb{i}_{b}']
             m.update(gain_min=10, gain_flatmax=26, p_max=25, nf_min=nf, nf_max=nf + 3.0)
-    bands = [{'f_min': 191.3e12, 'f_max': G.pick(rng, [196.0e12, 196.0e12, 194.0e12]), 'spacing': 50e9},
-             {'f_min': G.pick(rng, [187.0e12, 188.5e12, 189.0e12]), 'f_max': 190.0e12, 'spacing': 50e9}]
+    # (each design band has a channel spacing of its own: the design load of a band is the band filled at that spacing)
+    bands = [{'f_min': 191.3e12, 'f_max': G.pick(rng, [196.0e12, 196.0e12, 194.0e12]),
+              'spacing': G.pick(rng, [50e9, 50e9, 37.5e9, 75e9])},
+             {'f_min': G.pick(rng, [187.0e12, 188.5e12, 189.0e12]), 'f_max': 190.0e12,
+              'spacing': G.pick(rng, [50e9, 50e9, 100e9])}]
 
     def rp(r, s):
         return {'design_bands': deepcopy(bands)}
@@ -498,10 +501,16 @@ def run_multiband(case, ctx):
     ej, tj, groups, bands = build_multiband_inputs(rng, crossed=case['kind'] == 'kf-multiband-crossed')
     equipment = G.make_equipment(ej)
     network = G.make_network(tj, equipment)
-    SimParams.set_params({})
+    srs = case['kind'] == 'multiband' and rng.random() < 0.35
+    # with the Raman flag on the design estimates the power tilt that stimulated Raman scattering builds up between
+    # and inside the bands and hands per-band deviations / tilt targets to the selection
+    SimParams.set_params({'raman_params': {'flag': True, 'result_spatial_resolution': 10e3,
+                                           'solver_spatial_resolution': 10e3}} if srs else {})
+    if srs:
+        ctx.count('multiband_designs_with_srs_estimation')
     _CALLS.clear()
     _stack.clear()
-    ctx.dump.update({'equipment_edfa': [e for e in ej['Edfa'] if e['type_variety'].startswith('syn')],
+    ctx.dump.update({'equipment_edfa': [e for e in ej['Edfa'] if e['type_variety'].startswith('syn')], 'srs': srs,
                      'equipment_span': ej['Span'], 'topology': tj, 'design_bands': bands})
     lib = lib_entries(ej)
     ext = ej['Span'][0].get('target_extended_gain', 2.5)
@@ -510,6 +519,8 @@ def run_multiband(case, ctx):
         G.design(equipment, network)
     except ConfigurationError as e:
         err = e
+    finally:
+        SimParams.set_params({})
     parents = [n for n in network.nodes() if isinstance(n, Multiband_amplifier)]
     owner = {id(a): (p, b) for p in parents for b, a in p.amplifiers.items()}
     # consecutive per-band calls of one multiband amplifier form one selection
@@ -555,6 +566,19 @@ def run_multiband(case, ctx):
             ctx.skip('no-group-capable-on-every-band')
             ctx.cls('multiband:no-fully-capable-group')
             continue
+        # reference total power of each band: reference channel power + the band filled at its own spacing
+        si = ej['SI'][0]
+        if not si.get('use_si_channel_count_for_design', False):
+            for b, r in recs.items():
+                bd = next(iter(_bands_of(run['parent'], b, bands)), None)
+                if bd is None:
+                    continue
+                exp_tot = si['power_dbm'] + 10 * np.log10(int((bd['f_max'] - bd['f_min']) // bd['spacing']))
+                ctx.count('band_reference_power_checks')
+                if abs(r['pref_total_db'] - exp_tot) > 1e-9:
+                    ctx.violation('band-reference-power', f'{run["parent"].uid} band {b}: design load {r["pref_total_db"]:.4f} dBm,'
+                                  f' the band {bd} filled with reference channels at its own spacing gives {exp_tot:.4f} dBm')
+                    return
         ctx.count('multiband_preselection_checks')
         totals = {b: round(r['pref_total_db'], 3) for b, r in recs.items()}
         if len(set(totals.values())) > 1:
